@@ -621,12 +621,13 @@ def lattice_cases(tier):
                 for tp in ("none", "t0", "t1"):
                     i += 1
                     if tier == "quick":
-                        # seed-dependent 1/12 slice of the full product; every configuration is visited by some seed
-                        if (i + seed) % 12 != 0:
+                        # seed-dependent 1/11 slice of the full product (11 is coprime to the 6 direction x test-particle
+                        # combinations, so a slice mixes them); every configuration is visited by some seed
+                        if (i + seed) % 11 != 0:
                             continue
                     elif tp != "none" and (j + seed) % 3 != {"t0": 0, "t1": 1}[tp]:
                         continue        # thorough: every combination without test particles, a third with each type
-                    sysd = pool_system(regime, (j + seed) % 6 if tier != "quick" else (i // 12 + seed) % 6)
+                    sysd = pool_system(regime, (j + seed) % 6 if tier != "quick" else (i // 11 + seed) % 6)
                     out.append({"regime": regime, "cfg": cfg, "system": sysd, "tp": tp, "backward": backward,
                                 "norb": 3, "cache": True})
     return out
@@ -635,7 +636,7 @@ def lattice_cases(tier):
 # ---------------------------------------------------------------------------------------------------------------
 # adaptive schemes: IAS15 (adaptive modes) and BS (tolerances)
 
-IAS15_CLASS = 1e-11      # "accurate down to machine precision": scaled error after <= 6 inner periods (x H)
+IAS15_CLASS = 1e-12      # "accurate down to machine precision": scaled error after <= 6 inner periods (x H x sqrt(periods)); measured <= 6e-15
 BS_K = 1e3               # error <= BS_K * eps_rel * inner periods (+ floor), DESIGN
 STEP_CAP = 200000        # an adaptive run of <= 6 inner periods needs 1e2..1e4 steps
 
